@@ -153,6 +153,13 @@ def extra_cases(tier, seed):
     out = []
     for c in (54, 55, 62):
         out.append({"k": "b2c", "rows": [[j in (0, c - 1) for j in range(c)], [j == c - 1 for j in range(c)], [False] * c], "ncols": c, "opt": "default"})
+    # narrow dtypes near the end of their range: the per-block partial results (sums, sums of squares, counts) do not fit the INPUT's dtype although the answer NumPy gives
+    # (accumulated in 64 bits) is fine - for every thread count
+    for dtype, arr in (("int32", [1_500_000_000, 1_400_000_000, 1_300_000_000, 1_200_000_000, 7, -5]), ("int16", [30000, 29000, 28000, 31000, 5]), ("int8", [100, 90, 120, 110, 3, 100]),
+                       ("uint8", [250, 240, 200, 255, 3]), ("float32", [1e8, 1e8 + 8, 3.5, 1e8, None, 2.0]), ("int64", [2 ** 61, 2 ** 61, -3, 2 ** 60, 5])):
+        out.append({"k": "nan1d", "dtype": dtype, "arr": arr, "nt": [1, 2, 3, 4]})
+    for dtype, rows_ in (("int32", [[1_500_000_000, 7], [1_400_000_000, -5], [1_300_000_000, 2]]), ("int16", [[30000, 1], [29000, 2], [31000, 3]])):
+        out.append({"k": "nan2d", "dtype": dtype, "rows": rows_, "nt": [1, 2]})
     return out
 
 
